@@ -3,6 +3,8 @@
  * Steps (state token is always "-", these are pure functions):
  *   split <d> <s> = [[..],..]        spiftool_split(d, s); d = "-" (NULL: white space) or [codes]; NULL result = []
  *   tok   <d> <s> = [[..],..]        spif_tok_new_from_ptr(s) (+ set_sep(d)) + spif_tok_eval + token list
+ *   tok_eval <d> <s> = [[..],..]     spif_tok_set_src(T, s) + spif_tok_set_sep(T, d or NULL) + spif_tok_eval(T) on the ONE tok
+ *                                    object T of this script (created by its first tok_eval, deleted at the end): histories
  *   words <s>     = {n=N,p=[..],w=[[..],..]}   num_words(s); get_word(i,s), get_pword(i,s) for i = 1..N
  *                                    (p: offset into s, -1 = NULL; w: "-" inside the list = NULL);
  *                                    indices 0 and N+1 are called too, for the sanitizer only
@@ -11,8 +13,31 @@
  */
 #include "c12_util.h"
 
-static void vh_begin(void) { }
-static void vh_end(void) { }
+/* the tok object that lives across the steps of one script (op tok_eval): a history on ONE object */
+static spif_tok_t T = (spif_tok_t) NULL;
+static void vh_begin(void) { T = (spif_tok_t) NULL; }
+static void vh_end(void) { if (!SPIF_TOK_ISNULL(T)) { spif_tok_del(T); T = (spif_tok_t) NULL; } }
+
+/* token list of a tok object as [[..],..]; returns an invariant-failure message or NULL */
+static const char *tok_readout(spif_tok_t t, vh_sb *ret) {
+    spif_list_t l = spif_tok_get_tokens(t); long i, n;
+    sb_putc(ret, '[');
+    n = SPIF_LIST_ISNULL(l) ? 0 : (long) SPIF_LIST_COUNT(l);
+    for (i = 0; i < n; i++) {
+        spif_str_t e = (spif_str_t) SPIF_LIST_GET(l, (spif_listidx_t) i);
+        if (i) sb_putc(ret, ',');
+        if (SPIF_STR_ISNULL(e)) sb_putc(ret, '-');
+        else {
+            long len = (long) spif_str_get_len(e); const unsigned char *p = (const unsigned char *) e->s;
+            if (len < 0) return "token_len<0";
+            if (len > 0 && !p) return "token_text=NULL_with_len>0";
+            if (p && strlen((const char *) p) != (size_t) len) return "token_len!=strlen";
+            sb_bytes(ret, p, (size_t) len);
+        }
+    }
+    sb_putc(ret, ']');
+    return NULL;
+}
 
 static const char *vh_step(const vh_step_t *st, vh_sb *ret, vh_sb *state) {
     const char *op = st->op;
@@ -33,28 +58,22 @@ static const char *vh_step(const vh_step_t *st, vh_sb *ret, vh_sb *state) {
     } else if (!strcmp(op, "tok") && st->nargs == 2) {
         unsigned char *d = cu_text(st->args[0], NULL), *s = cu_text(st->args[1], NULL);
         spif_tok_t t = spif_tok_new_from_ptr((spif_charptr_t) s);
-        spif_list_t l; long i, n;
         if (SPIF_TOK_ISNULL(t)) { free(d); free(s); return "tok_new_from_ptr=NULL"; }
         if (d) spif_tok_set_sep(t, spif_str_new_from_ptr((spif_charptr_t) d));
         free(d); free(s);      /* the object owns copies; the scanner must not depend on the caller's buffers */
         if (!spif_tok_eval(t)) { spif_tok_del(t); return "tok_eval=FALSE"; }
-        l = spif_tok_get_tokens(t);
-        sb_putc(ret, '[');
-        n = SPIF_LIST_ISNULL(l) ? 0 : (long) SPIF_LIST_COUNT(l);
-        for (i = 0; i < n; i++) {
-            spif_str_t e = (spif_str_t) SPIF_LIST_GET(l, (spif_listidx_t) i);
-            if (i) sb_putc(ret, ',');
-            if (SPIF_STR_ISNULL(e)) sb_putc(ret, '-');
-            else {
-                long len = (long) spif_str_get_len(e); const unsigned char *p = (const unsigned char *) e->s;
-                if (len < 0) { spif_tok_del(t); return "token_len<0"; }
-                if (len > 0 && !p) { spif_tok_del(t); return "token_text=NULL_with_len>0"; }
-                if (p && strlen((const char *) p) != (size_t) len) { spif_tok_del(t); return "token_len!=strlen"; }
-                sb_bytes(ret, p, (size_t) len);
-            }
-        }
-        sb_putc(ret, ']');
+        { const char *bad = tok_readout(t, ret); if (bad) { spif_tok_del(t); return bad; } }
         spif_tok_del(t);
+    } else if (!strcmp(op, "tok_eval") && st->nargs == 2) {
+        /* the SAME object as in the previous steps of this script: new source (and separator), evaluate again */
+        unsigned char *d = cu_text(st->args[0], NULL), *s = cu_text(st->args[1], NULL); const char *bad;
+        if (SPIF_TOK_ISNULL(T)) T = spif_tok_new();
+        if (SPIF_TOK_ISNULL(T)) { free(d); free(s); return "tok_new=NULL"; }
+        spif_tok_set_src(T, spif_str_new_from_ptr((spif_charptr_t) s));
+        spif_tok_set_sep(T, d ? spif_str_new_from_ptr((spif_charptr_t) d) : (spif_str_t) NULL);
+        free(d); free(s);
+        if (!spif_tok_eval(T)) return "tok_eval=FALSE";
+        if ((bad = tok_readout(T, ret))) return bad;
     } else if (!strcmp(op, "words") && st->nargs == 1) {
         size_t len; unsigned char *s = cu_text(st->args[0], &len);
         unsigned long n = spiftool_num_words((spif_charptr_t) s), i;
